@@ -173,10 +173,14 @@ func (s *Linear) Nice(o TickOptions) {
 	// when the only levels with few enough ticks overflow float64
 	// the products are NaN or infinite, and a bound that is already
 	// within rounding of a tick stays where it is.
-	if min := firstN * spacing; min <= s.Min && !math.IsInf(min, 0) {
+	// When the true spacing is beyond every finite value,
+	// spacingAtLevel substitutes the largest one, and zero is the
+	// only multiple of the true spacing that can be represented.
+	overflow := spacing >= math.MaxFloat64
+	if min := firstN * spacing; min <= s.Min && !math.IsInf(min, 0) && !(overflow && firstN != 0) {
 		s.Min = min
 	}
-	if max := lastN * spacing; max >= s.Max && !math.IsInf(max, 0) {
+	if max := lastN * spacing; max >= s.Max && !math.IsInf(max, 0) && !(overflow && lastN != 0) {
 		s.Max = max
 	}
 }
